@@ -276,6 +276,45 @@ func run(c *fw.Ctx) {
 				eval("prefix", s[:k])
 			}
 		}
+		// (iv) trailing length-prefixed block (the tls-crypt-v2 wrapped client key at the end of an OpenVPN reset ends with
+		// its own 16-bit length): the block is shortened by 1..12 bytes in front of that length, or inside, the length
+		// is made consistent again, and one byte near the cut takes all 256 values (the block is AES-CTR ciphertext,
+		// so this walks one plaintext byte - a metadata type, say - through every value)
+		if t.matcher == "openvpn" {
+			for _, sd := range t.seeds {
+				if len(sd) < 300 {
+					continue
+				}
+				L := int(sd[len(sd)-2])<<8 | int(sd[len(sd)-1])
+				if L < 290 || L > len(sd) {
+					continue
+				}
+				for cut := -12; cut <= 12 && cut < L-34; cut++ {
+					if cut == 0 {
+						continue
+					}
+					var m []byte
+					if cut > 0 {
+						m = append([]byte(nil), sd[:len(sd)-2-cut]...)
+					} else {
+						m = append([]byte(nil), sd[:len(sd)-2]...)
+						m = append(m, make([]byte, -cut)...) // (a negative cut lengthens the block)
+					}
+					nl := L - cut
+					m = append(m, byte(nl>>8), byte(nl))
+					eval("trailer-resized", m)
+					// the byte that follows the 256-byte key inside the block: block = 32-byte tag + ciphertext + length
+					if at := len(m) - nl + 32 + 256; at < len(m)-2 {
+						orig := m[at]
+						for v := 0; v < 256; v++ {
+							m2 := append([]byte(nil), m...)
+							m2[at] = orig ^ byte(v)
+							eval("trailer-resized+byte", m2)
+						}
+					}
+				}
+			}
+		}
 		// (i) random and (iii) mutations
 		for i := 0; i < n; i++ {
 			if len(t.seeds) > 0 && i%4 != 0 {
